@@ -345,6 +345,7 @@ func c10Run(c c10Case) (v vVerdict) {
 	viper.Reset()
 	e := &c10Env{c: &c, root: root, queued: make(chan func())}
 	var inner DataSource
+	badSep := false                         // lancero: the configuration in force has a column separation that makes channel numbers collide
 	oddRefused, oddAccepted := false, false // unworkable unwrap options: refused by Configure / accepted
 	reconfigure := func(nchan int) error { return nil }
 	switch c.Source {
@@ -388,13 +389,26 @@ func c10Run(c c10Case) (v vVerdict) {
 		oldPath := cringeGlobalsPath
 		cringeGlobalsPath = cg
 		defer func() { cringeGlobalsPath = oldPath }()
+		badSep = c.FailBy == "chansep"
 		reconfigure = func(n int) error {
 			rows := 2 + n%3
 			os.WriteFile(cg, []byte(fmt.Sprintf(`{"SETT":1,"seqln":%d,"lsync":20000,"testpattern":0,"propagationdelay":0,"NSAMP":4,"carddelay":0,"XPT":0}`, rows)), 0o644)
-			card := &vLiveCard{cols: 1, rows: rows, period: time.Duration(20000 * rows * 8), t0: vPipeT0}
+			cols, sep := 1, 0
+			if c.FailBy == "chansep" {
+				cols = 2
+			}
+			if badSep {
+				sep = 1 // two columns whose channel numbers would collide: the start must fail (when the channels are numbered)
+			}
+			card := &vLiveCard{cols: cols, rows: rows, period: time.Duration(20000 * rows * 8), t0: vPipeT0}
 			ls.devices = map[int]*LanceroDevice{0: {devnum: 0, card: card}}
 			ls.ncards = 1
-			return ls.Configure(&LanceroSourceConfig{FiberMask: 0xffff, ActiveCards: []int{0}, CardDelay: []int{1}, FirstRow: 1})
+			err := ls.Configure(&LanceroSourceConfig{FiberMask: 0xffff, ActiveCards: []int{0}, CardDelay: []int{1}, FirstRow: 1, ChanSepColumns: sep})
+			if err != nil && badSep { // refused already at configuration time: the client corrects it
+				badSep = false
+				return reconfigure(n)
+			}
+			return err
 		}
 		inner, e.any = ls, &ls.AnySource
 	case "roach":
@@ -490,7 +504,7 @@ func c10Run(c c10Case) (v vVerdict) {
 	failNext := ""
 	endEarly := false
 	nchan := c.Nchan
-	concurrentStops, postSelfStops, restarts, forced, garbage, failedStarts := 0, 0, 0, 0, 0, 0
+	concurrentStops, postSelfStops, restarts, forced, garbage, failedStarts, sepFailed := 0, 0, 0, 0, 0, 0, 0
 	defer func() {
 		if e.udpStop != nil {
 			close(e.udpStop)
@@ -555,7 +569,8 @@ func c10Run(c c10Case) (v vVerdict) {
 			f := vFailf("overlap-accepted", "op %d: Start succeeded although two channel groups sharing a channel number were arriving", i)
 			return &f
 		}
-		expectFail := st0 != Inactive || inject != "" || udpSilent
+		sepFail := badSep && st0 == Inactive
+		expectFail := st0 != Inactive || inject != "" || udpSilent || sepFail
 		if err == nil && expectFail && st0 != Inactive {
 			f := vFailf("start-while-active", "op %d: Start succeeded although the source state was %d", i, st0)
 			return &f
@@ -586,7 +601,19 @@ func c10Run(c c10Case) (v vVerdict) {
 				e.startSenders()
 				reconfigure(nchan)
 			}
+			if sepFail {
+				badSep = false // the client corrects the separation
+				if rerr := reconfigure(nchan); rerr != nil {
+					f := vFailf("configure-rejected", "op %d: after the failed start the corrected configuration was rejected: %v", i, rerr)
+					return &f
+				}
+				sepFailed++
+			}
 			return nil
+		}
+		if sepFail {
+			f := vFailf("colliding-channels-started", "op %d: Start succeeded with two columns of %d rows and a column separation of 1", i, 2+nchan%3)
+			return &f
 		}
 		if inject != "" || udpSilent {
 			return nil
@@ -869,6 +896,9 @@ func c10Run(c c10Case) (v vVerdict) {
 	if oddRefused {
 		v.Classes = append(v.Classes, "unworkable-unwrap-options-refused")
 	}
+	if sepFailed > 0 {
+		v.Classes = append(v.Classes, "start-failed-numbering-channels")
+	}
 	if failedStarts > 0 {
 		v.Classes = append(v.Classes, "write-start-failing-late")
 	}
@@ -889,6 +919,9 @@ func c10Gen(t *rapid.T) c10Case {
 	}
 	if c.Source == "udp" && rapid.Bool().Draw(t, "overlapfail") {
 		c.FailBy = "overlap"
+	}
+	if c.Source == "lancero" && rapid.Bool().Draw(t, "chansep") {
+		c.FailBy = "chansep"
 	}
 	if c.Source == "udp" || c.Source == "udp2" {
 		c.Unwrap = rapid.SampledFrom([]int{0, 0, 1, 2, 3}).Draw(t, "unwrapopts")
